@@ -169,37 +169,60 @@ Proof. exact @cow_overlay_handle_transparent. Qed.
 Print Assumptions C06_overlay_handle_transparent.
 
 (* ---- 5. copy-up keeps the bytes and the mtime (MemMapFs on both sides) ---- *)
+(* the two predicates of the statements below, spelled out.  copy_up_ready: the overlay lacks the
+   name and either (A) has the directory part of the name, or (B) lacks it too but has ITS parent
+   entry (copyFile then creates one directory level; e.g. the overlay holds only "/" and the file
+   is /d/f).  parent_key x is the key MemMapFs.registerWithParent looks up for a node called x.
+   LF nn g s d mt: in s the path nn names node g, a regular file with bytes d (and mtime mt). *)
+Theorem C06_copy_up_ready_meaning : forall s name,
+  copy_up_ready s name <->
+  let dk := normalize_path (path_dir name) in
+  let nn := normalize_path name in
+  ((exists d dn, lookup s dk = Some d /\ get_node s d = Some dn) /\
+   lookup s nn = None /\ parent_key nn <> nn /\
+   exists pp pn, lookup s (parent_key nn) = Some pp /\ get_node s pp = Some pn)
+  \/
+  (lookup s dk = None /\ parent_key dk <> dk /\
+   (exists pp pn, lookup s (parent_key dk) = Some pp /\ get_node s pp = Some pn) /\
+   lookup s nn = None /\ parent_key nn = dk /\ dk <> nn).
+Proof. exact copy_up_ready_meaning. Qed.
+Print Assumptions C06_copy_up_ready_meaning.
+
+Theorem C06_LF_meaning : forall nn g s d mt,
+  LF nn g s d mt <->
+  lookup s nn = Some g /\
+  exists n, get_node s g = Some n /\ ndata n = d /\ ndir n = false /\
+            match mt with Some t => nmtime n = t | None => True end.
+Proof. exact LF_meaning. Qed.
+Print Assumptions C06_LF_meaning.
+
 (* PARTIAL.  Full statement: "whenever copyToLayer succeeds, the overlay holds the base's bytes
-   and mtime".  Proved: for a regular base file of ANY size (any number of 32 KiB chunks), when
-   the overlay already has the directory part of the name, lacks the name itself, and the entry
-   registerWithParent looks up (parent_key) exists, copyToLayer SUCCEEDS, the overlay then maps
-   the name to a regular file with exactly the base's bytes and the base's mtime, and the base's
-   stored filesystem is unchanged.  Missing: overlay parent directory absent (copyFile's MkdirAll
-   path: MemMapFs.registerWithParent creating ancestors), name already present in the overlay. *)
-Theorem C06_copy_up_preserves_partial : forall sb sl name f nd d dn pp pn,
+   and mtime".  Proved: for a regular base file of ANY size (any number of 32 KiB chunks) and an
+   overlay in situation (A) or (B), copyToLayer SUCCEEDS, the overlay then maps the name to a
+   regular file with exactly the base's bytes and the base's mtime, and the base's stored
+   filesystem is unchanged.  Missing: more than one missing directory level in the overlay
+   (MemMapFs.registerWithParent creating a chain of ancestors), a name already present in the
+   overlay, names whose directory part and registration parent differ (trailing slashes). *)
+Theorem C06_copy_up_preserves_partial : forall sb sl name f nd,
   let nn := normalize_path name in
   lookup sb nn = Some f -> get_node sb f = Some nd -> ndir nd = false ->
-  lookup sl (normalize_path (path_dir name)) = Some d -> get_node sl d = Some dn ->
-  lookup sl nn = None ->
-  parent_key nn <> nn -> lookup sl (parent_key nn) = Some pp -> get_node sl pp = Some pn ->
-  exists sb' sl', copy_to_layer m_step m_step sb sl name = (sb', sl', None) /\
+  copy_up_ready sl name ->
+  exists sb' sl' g, copy_to_layer m_step m_step sb sl name = (sb', sl', None) /\
     fs_view sb' = fs_view sb /\
-    LF nn (length (mheap sl)) sl' (ndata nd) (Some (nmtime nd)).
+    LF nn g sl' (ndata nd) (Some (nmtime nd)).
 Proof. exact copy_up_mem. Qed.
 Print Assumptions C06_copy_up_preserves_partial.
 
-(* PARTIAL (same hypotheses; the write is a non-empty prefix overwrite).  Through cow(mem,mem):
+(* PARTIAL (same situations; the write is a non-empty prefix overwrite).  Through cow(mem,mem):
    OpenFile(O_RDWR) of a base-only file, Write b (0 < len b <= size), Close, Stat, Open, Read(size):
    every call succeeds, Stat shows a regular file of the old size, the Read returns b followed by
    ALL remaining old bytes, the base's stored filesystem is unchanged, and the overlay holds the
    new content.  Missing: other offsets/lengths (follow from C02 for the overlay file), O_WRONLY /
    O_APPEND / O_TRUNC opens. *)
-Theorem C06_write_read_back_partial : forall sb sl tbl name perm f nd d dn pp pn b,
+Theorem C06_write_read_back_partial : forall sb sl tbl name perm f nd b,
   let nn := normalize_path name in
   lookup sb nn = Some f -> get_node sb f = Some nd -> ndir nd = false ->
-  lookup sl (normalize_path (path_dir name)) = Some d -> get_node sl d = Some dn ->
-  lookup sl nn = None ->
-  parent_key nn <> nn -> lookup sl (parent_key nn) = Some pp -> get_node sl pp = Some pn ->
+  copy_up_ready sl name ->
   0 < zlen b <= zlen (ndata nd) ->
   let i := length tbl in
   let result := b ++ skipn (Z.to_nat (zlen b)) (ndata nd) in
@@ -208,7 +231,7 @@ Theorem C06_write_read_back_partial : forall sb sl tbl name perm f nd d dn pp pn
   (exists fi, rs = [RHandle i; RCount (zlen b) None; ROk; RInfo fi; RHandle (S i); RData result None] /\
               fi_dir fi = false /\ fi_size fi = zlen (ndata nd)) /\
   fs_view (fst (fst st)) = fs_view sb /\
-  LF nn (length (mheap sl)) (snd (fst st)) result None.
+  exists g, LF nn g (snd (fst st)) result None.
 Proof. exact cow_mem_partial_write_read_back. Qed.
 Print Assumptions C06_write_read_back_partial.
 
@@ -265,20 +288,30 @@ Definition c06_base : mst :=
 Definition c06_layer : mst :=
   fst (run_steps m_step m_init [MkdirAll p_d 493; Create p_h; HWrite 0 [88;89]%N; HClose 0]).
 
-(* the hypotheses of the two MemMapFs theorems hold for /d/f in these two filesystems *)
-Example C06_ex_hypotheses :
+(* the hypotheses of the two MemMapFs theorems hold for /d/f: base file present; the overlay
+   c06_layer is in situation (A), the empty overlay m_init in situation (B) *)
+Example C06_ex_base_file :
   lookup c06_base (normalize_path p_f) = Some 2%nat /\
-  (exists nd, get_node c06_base 2 = Some nd /\ ndir nd = false /\ ndata nd = hello /\ nmtime nd = 1000) /\
-  lookup c06_layer (normalize_path (path_dir p_f)) = Some 1%nat /\
-  (exists dn, get_node c06_layer 1 = Some dn) /\
-  lookup c06_layer (normalize_path p_f) = None /\
-  parent_key (normalize_path p_f) <> normalize_path p_f /\
-  lookup c06_layer (parent_key (normalize_path p_f)) = Some 1%nat.
+  exists nd, get_node c06_base 2 = Some nd /\ ndir nd = false /\ ndata nd = hello /\ nmtime nd = 1000.
+Proof. split; [vm_compute; reflexivity|]. eexists. split; [vm_compute; reflexivity | now repeat split]. Qed.
+Example C06_ex_ready_A : copy_up_ready c06_layer p_f.
 Proof.
-  split; [vm_compute; reflexivity|]. split; [eexists; split; [vm_compute; reflexivity | now repeat split]|].
-  split; [vm_compute; reflexivity|]. split; [eexists; vm_compute; reflexivity|].
-  split; [vm_compute; reflexivity|]. split; [vm_compute; discriminate | vm_compute; reflexivity].
+  left. split; [exists 1%nat; eexists; split; vm_compute; reflexivity|].
+  split; [vm_compute; reflexivity|]. split; [vm_compute; discriminate|].
+  exists 1%nat. eexists. split; vm_compute; reflexivity.
 Qed.
+Example C06_ex_ready_B : copy_up_ready m_init p_f.
+Proof.
+  right. split; [vm_compute; reflexivity|]. split; [vm_compute; discriminate|].
+  split; [exists 0%nat; eexists; split; vm_compute; reflexivity|].
+  split; [vm_compute; reflexivity|]. split; [vm_compute; reflexivity | vm_compute; discriminate].
+Qed.
+(* situation (B) computed: copy-up into an overlay that holds only "/" *)
+Example C06_ex_copy_up_B :
+  snd (run_steps (cow_step m_step m_step) (c06_base, m_init, [])
+    [OpenFile p_f o_rdwr 0; HWrite 0 [72;69]%N; HClose 0; Open p_f; HRead 1 11])
+  = [RHandle 0; RCount 2 None; ROk; RHandle 1; RData [72;69;108;108;111;32;119;111;114;108;100]%N None].
+Proof. vm_compute. reflexivity. Qed.
 
 (* the model computes: partial overwrite of the base-only /d/f through the union, read back;
    then the directory /d (present in both) paged with sizes 1, 2, 5, 5: f | h g | EOF | EOF *)
